@@ -89,6 +89,7 @@ def run(tape, prop, tier):
                           by_id=tape.chance(0.4), extra=tape.chance(0.3), start=tape.choice([0.0, 0.0, 0.003, 0.05, 1.0]),
                           resp=tape.weighted([(7, "ok"), (1, "slow"), (1, "http500"), (1, "error_json")]),
                           step=tape.choice([0.0, 0.0, 0.0, -2.0, 3600.0, -0.0005]) if tape.chance(0.3) else 0.0))
+    reseed = tape.chance(0.3)
     use_tb = tape.chance(0.4)
     tb_cfg = (tape.choice([1, 2, 10]), tape.choice([1, 2]))
     conn_lat = tape.choice([0.0, 0.0, 0.2, 1.5])
@@ -228,6 +229,10 @@ def run(tape, prop, tier):
             async def one(i, c):
                 CALL.set(i)
                 await asyncio.sleep(c["start"])
+                if reseed:
+                    # e.g. a strategy that seeds the global PRNG before a reproducible Monte-Carlo sizing step
+                    random.seed(12345)
+                    res.faults["global_random_reseeded"] += 1
                 if c["step"]:
                     loop.skew += c["step"]
                     skew_tl.append((loop.time(), loop.skew))
